@@ -344,7 +344,7 @@ func (e Engine[C]) batch(t *testing.T, seed uint64, st *Stats, known []KnownFind
 		if f == nil {
 			return
 		}
-		if k := matchKnown(known, f); k != nil {
+		if k := matchKnown(known, f); k != nil && collectDir == "" {
 			if searching {
 				st.Known[k.Class+" "+k.SigRe]++
 			}
@@ -521,7 +521,7 @@ func Main(t *testing.T, engines ...runner) {
 		res.Engines[e.name()].knownList = known
 	}
 	spent := map[string]time.Duration{}
-	round := uint64(0)
+	rounds := map[string]uint64{}
 	for {
 		elapsed := time.Since(start)
 		if elapsed >= budget {
@@ -539,14 +539,20 @@ func Main(t *testing.T, engines ...runner) {
 		best := 0.0
 		for _, e := range sel {
 			share := float64(spent[e.name()]+time.Millisecond) / float64(e.weight())
+			if maxCases > 0 {
+				// bounded runs (determinism self-test) must not depend on wall time
+				share = float64(res.Engines[e.name()].Evaluations+1) / float64(e.weight())
+			}
 			if pick == nil || share < best {
 				pick, best = e, share
 			}
 		}
 		st := res.Engines[pick.name()]
 		t0 := time.Now()
-		bseed := seed*1_000_003 + uint64(worker)*7919 + round*104729 + 17
-		round++
+		// the batch seed depends on the engine's own batch count only, so the cases an
+		// engine runs do not depend on how the engines were interleaved
+		bseed := seed*1_000_003 + uint64(worker)*7919 + rounds[pick.name()]*104729 + 17 + Hash64(pick.name())%1009
+		rounds[pick.name()]++
 		fd := pick.batch(t, bseed, st, known)
 		spent[pick.name()] += time.Since(t0)
 		st.WallMS = spent[pick.name()].Milliseconds()
